@@ -187,7 +187,7 @@ check_dft(const json& c)
   // for a real array of (even) length 2, which fourier_for_real_data accepts
   if (x.len[2] == 2 && !no_exclude())
     {
-      vf::stats().count("excluded C19-F4 (inverse real-data transform, last length 2)");
+      vf::stats().count("excluded:C19:F4:inverse_fourier_for_real_data with last-dimension length 2 (clause skipped)");
       return Result::pass();
     }
   {
@@ -367,11 +367,7 @@ check_dftconv(const json& c)
     }
   // known finding C19-F4 (see check_dft): the inverse real-data transform refuses length 2, so a kernel of padded length 2 in
   // the last dimension is accepted by set_kernel() and then fails with error() when the filter is applied
-  if (P[2] == 2 && !no_exclude())
-    {
-      ++vf::stats().excluded_known;
-      return Result::reject("known finding C19-F4 (padded length 2 in the last dimension)");
-    }
+  // (cases of that class are rejected before check() through known_signature(), see c19_fourier_filters.cxx)
   // the true kernel on [a,b]
   int klen[3];
   for (int q = 0; q < 3; ++q)
@@ -507,11 +503,7 @@ check_convnd(const json& c)
     }
   Nd KT(kmin, klen);
   fill_kernel(KT, c.at("kseed").get<uint64_t>(), c.at("kpat").get<int>());
-  if (f1_class<D>(KT) && !no_exclude())
-    {
-      ++vf::stats().excluded_known;
-      return Result::reject("known finding C19-F1 (kernel with outer range [0,0] and origin element 1 or outside the inner ranges)");
-    }
+  // known finding C19-F1: cases with f1_class(KT) are rejected before check() through known_signature()
   Nd x(dmin, dlen);
   fill_data(x, c.at("seed").get<uint64_t>(), c.at("pat").get<int>());
   vf::stats().cls(vf::cat("conv", D, "d"));
